@@ -5,6 +5,11 @@ Every stored array of shape (rows, F, B) is a function of the C-order position p
   flags     (37 p + 11 (p // 256) + 5) mod 256                     (uint8)
   weights   v2: p + 1 (float32);  v3 / v4: lo = 1 + (7 p mod 251) (uint8) times the channel weight hi[t, f] = 1 + t F + f
 The products stay below 2**24, so float32 arithmetic on them is exact.
+
+Time: `grid4` gives the start of every dump in QUARTER dump periods after the first one (regular: 0, 4, 8, ...; a late
+dump: +1 / +2; a dropped dump: +4 for everything after it), so every timestamp is a dyadic rational.  Sensors: `hist`
+gives the stored histories -- numeric ones (piecewise linear, nodes every dt / 2 with integer slopes: np.interp is exact
+on them) and a categorical one (`drive_mode`, events at odd multiples of dt / 32: never on a dump boundary).
 """
 import os
 
@@ -45,25 +50,80 @@ def expected(kind, fmt, st, labels, conv):
     raise ValueError(kind)
 
 
+SENS_S = np.dtype([('timestamp', np.float64), ('value', 'S16'), ('status', 'S7')])
+
+
+def times_of(t0, dt, rows_or_grid4, T=None):
+    """Start time of every dump (seconds): t0 + dt / 4 * grid4[i]."""
+    if rows_or_grid4 is None:
+        rows_or_grid4 = [4 * i for i in range(T)]
+    return t0 + (dt / 4.0) * np.array(rows_or_grid4, dtype=np.float64)
+
+
+def gen_hist(rng, ants, t0, dt, span):
+    """Sensor histories for a data set whose dumps start between t0 and t0 + span (seconds), any time_offset <= 2 dt + 4.
+
+    num[ant][azim|elev]: nodes (t, v) every h = dt / 2, first node at t0 - 3 dt - 6 + dt / 8, v = h * m with integer m and
+    non-zero integer steps of m: slope (v1 - v0) / (t1 - t0) is a non-zero integer, so a sensor evaluated at the wrong
+    time ALWAYS has the wrong value, and slope * (t - t0) + v0 is exact in float64 for dyadic t.
+    cat[ant]: events (t, value) at odd multiples of dt / 32 after t0 - 2 dt, about one per 1.5 dumps, cycling values."""
+    h = dt / 2.0
+    lo = t0 - 3 * dt - 6.0 + dt / 8.0
+    n = int((span + 7 * dt + 12.0) / h) + 2
+    num, cat = {}, {}
+    for a in ants:
+        num[a] = {}
+        for which, base in (('azim', 40), ('elev', 120)):
+            m = base + rng.randint(-20, 20)
+            nodes = []
+            for j in range(n):
+                nodes.append((lo + j * h, h * m))
+                m += rng.choice([-3, -2, -1, 1, 2, 3])
+            num[a][which] = nodes
+        ev, t, k = [], -2 * 32, rng.randrange(5)
+        while t * dt / 32.0 < span + 2 * dt:
+            ev.append((t0 + (t | 1) * dt / 32.0, 'mode%d' % (k % 5)))
+            k += rng.randint(1, 4)
+            t += rng.randint(8, 80)
+        cat[a] = ev
+    return dict(num=num, cat=cat)
+
+
+def _num(nodes):
+    return np.array([(t, v, b'nominal') for t, v in nodes], dtype=SENS_F)
+
+
+def _cat(events):
+    return np.array([(t, v.encode(), b'nominal') for t, v in events], dtype=SENS_S)
+
+
+def _default_hist(ants, t0, dt, T):
+    two = lambda a, b: [(t0 - 10, a), (t0 + dt * T + 10, b)]       # noqa: E731
+    return dict(num=dict((a, dict(azim=two(10., 20.), elev=two(30., 40.))) for a in ants),
+                cat=dict((a, [(t0 - 10, 'mode0')]) for a in ants))
+
+
 def ant_desc(a, k):
     return '%s, -30:42:39.8, 21:26:38.0, 1086.6, 13.5, %d %d 0' % (a, 10 * k, -7 * k)
 
 
-def write_v1(fn, scans, F=4, ants=('ant1', 'ant2'), t0=1200000000.0, dt=1.0):
+def write_v1(fn, scans, F=4, ants=('ant1', 'ant2'), t0=1200000000.0, dt=1.0, grid4=None, hist=None):
     """scans: list of (compscan_no, compscan_label, target, scan_label, n_dumps).  Returns (stored, products, ts_ms)."""
     f = h5py.File(fn, 'w')
     f.attrs['version'] = '1.0'
     f.attrs['augment'] = 'yes'
     A = f.create_group('Antennas')
     T = sum(s[4] for s in scans)
+    hist = hist or _default_hist(ants, t0, dt, T)
     for k, a in enumerate(ants):
         g = A.create_group('Antenna%d' % (k + 1))
         g.attrs['description'] = ant_desc(a, k)
         for pol, dbe in (('H', 'x'), ('V', 'y')):
             g.create_group(pol).attrs['dbe_input'] = '%d%s' % (k, dbe)
         sg = g.create_group('Sensors')
-        sg.create_dataset('pos_actual_scan_azim', data=np.array([(t0 - 10, 10., b'nominal'), (t0 + dt * T + 10, 20., b'nominal')], dtype=SENS_F))
-        sg.create_dataset('pos_actual_scan_elev', data=np.array([(t0 - 10, 30., b'nominal'), (t0 + dt * T + 10, 40., b'nominal')], dtype=SENS_F))
+        sg.create_dataset('pos_actual_scan_azim', data=_num(hist['num'][a]['azim']))
+        sg.create_dataset('pos_actual_scan_elev', data=_num(hist['num'][a]['elev']))
+        sg.create_dataset('drive_mode', data=_cat(hist['cat'][a]))
     dbe_inputs = ['%d%s' % (k, p) for k in range(len(ants)) for p in 'xy']
     prods = [dbe_inputs[i] + dbe_inputs[j] for i in range(len(dbe_inputs)) for j in range(i, len(dbe_inputs))]
     B = len(prods)
@@ -78,7 +138,7 @@ def write_v1(fn, scans, F=4, ants=('ant1', 'ant2'), t0=1200000000.0, dt=1.0):
     st = labelled(T, F, B)
     dtv = np.dtype([(str(i), np.complex64) for i in range(B)])
     t = 0
-    ts_ms = 1000.0 * (t0 + dt * np.arange(T))
+    ts_ms = 1000.0 * times_of(t0, dt, grid4, T)
     for (cs, cslabel, target, slabel, nd) in scans:
         name = 'CompoundScan%d' % cs
         cg = S[name] if name in S else S.create_group(name)
@@ -96,7 +156,8 @@ def write_v1(fn, scans, F=4, ants=('ant1', 'ant2'), t0=1200000000.0, dt=1.0):
     return st, prods, ts_ms
 
 
-def write_v2(fn, T=10, F=8, ants=('ant1', 'ant2'), t0=1300000000.0, dt=2.0, acts=(), targets=(), labels=(), dup_last=False):
+def write_v2(fn, T=10, F=8, ants=('ant1', 'ant2'), t0=1300000000.0, dt=2.0, acts=(), targets=(), labels=(), dup_last=False,
+             grid4=None, hist=None):
     inputs = [a + p for a in ants for p in 'hv']
     cps = [(inputs[i], inputs[j]) for i in range(len(inputs)) for j in range(i, len(inputs))]
     B = len(cps)
@@ -107,10 +168,11 @@ def write_v2(fn, T=10, F=8, ants=('ant1', 'ant2'), t0=1300000000.0, dt=2.0, acts
     rows = T + (1 if dup_last else 0)
     st = labelled(rows, F, B)
     data.create_dataset('correlator_data', data=np.stack([st['vis'].real, st['vis'].imag], axis=-1).astype(np.float32))
-    ts = t0 + dt * np.arange(rows)
+    ts = times_of(t0, dt, grid4, T)
     if dup_last:
-        ts[-1] = ts[-2]
+        ts = np.r_[ts, ts[-1]]
     data.create_dataset('timestamps', data=ts)
+    hist = hist or _default_hist(ants, t0, dt, T)
     md = f.create_group('MetaData')
     S = md.create_group('Sensors')
     C = md.create_group('Configuration')
@@ -129,8 +191,9 @@ def write_v2(fn, T=10, F=8, ants=('ant1', 'ant2'), t0=1300000000.0, dt=2.0, acts
         sg = SA.create_group(a)
         sens(sg, 'activity', [(t0 + dt * d - 0.9, v.encode()) for d, v in acts])
         sens(sg, 'target', [(t0 + dt * d - 0.9, v.encode()) for d, v in targets], 'S128')
-        sg.create_dataset('pos.actual-scan-azim', data=np.array([(t0 - 10, 10., b'nominal'), (t0 + dt * T + 10, 20., b'nominal')], dtype=SENS_F))
-        sg.create_dataset('pos.actual-scan-elev', data=np.array([(t0 - 10, 30., b'nominal'), (t0 + dt * T + 10, 40., b'nominal')], dtype=SENS_F))
+        sg.create_dataset('pos.actual-scan-azim', data=_num(hist['num'][a]['azim']))
+        sg.create_dataset('pos.actual-scan-elev', data=_num(hist['num'][a]['elev']))
+        sg.create_dataset('drive.mode', data=_cat(hist['cat'][a]))
     sens(S.create_group('RFE'), 'center-frequency-hz', [(t0 - 5, 1822e6)], np.float64)
     sens(S.create_group('DBE'), 'dbe.mode', [(t0 - 5, b'wbc')])
     M = f.create_group('Markup')
@@ -145,7 +208,7 @@ def write_v2(fn, T=10, F=8, ants=('ant1', 'ant2'), t0=1300000000.0, dt=2.0, acts
 
 
 def write_v3(fn, T=10, F=8, ants=('m000', 'm001'), t0=1500000000.0, dt=2.0, acts=(), targets=(), labels=(),
-             dup_last=False, centroid=False, lower=False, cbf_dt=0.5):
+             dup_last=False, centroid=False, lower=False, cbf_dt=0.5, grid4=None, hist=None):
     """lower: a "fake UHF" file (bandwidth 856 MHz, to be opened with band='u') whose spectral window has sideband -1."""
     inputs = [a + p for a in ants for p in 'hv']
     cps = [(inputs[i], inputs[j]) for i in range(len(inputs)) for j in range(i, len(inputs))]
@@ -157,9 +220,10 @@ def write_v3(fn, T=10, F=8, ants=('m000', 'm001'), t0=1500000000.0, dt=2.0, acts
     rows = T + (1 if dup_last else 0)
     st = labelled(rows, F, B)
     data.create_dataset('correlator_data', data=np.stack([st['vis'].real, st['vis'].imag], axis=-1).astype(np.float32))
-    ts = t0 + dt * np.arange(rows)
+    ts = times_of(t0, dt, grid4, T)
     if dup_last:
-        ts[-1] = ts[-2]
+        ts = np.r_[ts, ts[-1]]
+    hist = hist or _default_hist(ants, t0, dt, T)
     tsd = data.create_dataset('timestamps', data=ts)
     if centroid:
         tsd.attrs['timestamp_reference'] = 'centroid'
@@ -186,7 +250,8 @@ def write_v3(fn, T=10, F=8, ants=('m000', 'm001'), t0=1500000000.0, dt=2.0, acts
         g.attrs['observer'] = ant_desc(a, k)
         sens(g, 'activity', [(t0 + dt * d - 0.9, v.encode()) for d, v in acts])
         sens(g, 'target', [(t0 + dt * d - 0.9, v.encode()) for d, v in targets])
-        g.create_dataset('pos_actual_scan_azim', data=np.array([(t0 - 10, 10., b'nominal'), (t0 + dt * T + 10, 20., b'nominal')], dtype=SENS_F))
-        g.create_dataset('pos_actual_scan_elev', data=np.array([(t0 - 10, 30., b'nominal'), (t0 + dt * T + 10, 40., b'nominal')], dtype=SENS_F))
+        g.create_dataset('pos_actual_scan_azim', data=_num(hist['num'][a]['azim']))
+        g.create_dataset('pos_actual_scan_elev', data=_num(hist['num'][a]['elev']))
+        g.create_dataset('drive_mode', data=_cat(hist['cat'][a]))
     f.close()
     return st, cps, ts
